@@ -45,7 +45,7 @@ func runC13(c *core.Ctx) {
 	c.Floor("R13.4", 1)
 	c.Floor("R13.5", 4)
 	c.Floor("R13.6", 1)
-	c.Floor("R13.7", 2)
+	c.Floor("R13.7", 1)
 	c.Floor("R13.8", 2)
 }
 
